@@ -70,13 +70,17 @@ def _ecdh_shared_decrypt(sec, eph_point):
     return priv.exchange(ec.ECDH(), ec.EllipticCurvePublicKey.from_encoded_point(cls(), eph_point))
 
 
-def pkcs5_pad(m):
+def pkcs5_pad(m, pad_to=None):
+    """RFC 6637 section 8: PKCS5-style padding to 8-octet granularity; a sender MAY pad further (GnuPG pads every
+    AES session key to 40 octets: 21, 13 and 5 padding octets) to hide the size of the session key"""
     n = 8 - len(m) % 8
+    if pad_to is not None and pad_to > len(m) + n and (pad_to - len(m)) < 256 and pad_to % 8 == 0:
+        n = pad_to - len(m)
     return m + bytes([n]) * n
 
 
 def pkcs5_unpad(m):
-    if not m or not 1 <= m[-1] <= 8 or m[-m[-1]:] != bytes([m[-1]]) * m[-1]:
+    if not m or not 1 <= m[-1] <= len(m) or m[-m[-1]:] != bytes([m[-1]]) * m[-1]:
         raise WireError('bad PKCS5 padding')
     return m[:-m[-1]]
 
@@ -142,7 +146,7 @@ def pkesk_decrypt(p, sec):
     raise WireError('cannot decrypt PKESK algorithm %d' % p.alg)
 
 
-def pkesk_build(pub, symid, key, keyid=None):
+def pkesk_build(pub, symid, key, keyid=None, pad_to=None):
     m = bytes([symid]) + bytes(key) + (sum(key) & 0xFFFF).to_bytes(2, 'big')
     kid = pub.keyid if keyid is None else keyid
     if pub.alg in keys.RSA_ALGS:
@@ -158,7 +162,7 @@ def pkesk_build(pub, symid, key, keyid=None):
             shared = eph.exchange(ec.ECDH(), pub.crypto_public())
             point = eph.public_key().public_bytes(serialization.Encoding.X962, serialization.PublicFormat.UncompressedPoint)
         kek = ecdh_kdf(pub, shared)
-        w = aes_wrap(pub.kdf[1], kek, pkcs5_pad(m))
+        w = aes_wrap(pub.kdf[1], kek, pkcs5_pad(m, pad_to))
         return b'\x03' + kid + bytes([18]) + mpi_encode(int.from_bytes(point, 'big')) + bytes([len(w)]) + w
     raise WireError('cannot encrypt to algorithm %d' % pub.alg)
 
